@@ -482,6 +482,11 @@ def runOps : State → List Op → List StepObs
 structure Input where
   kind : String
   noRoot : Bool              -- the plugin root directory does not exist at the start (same model state: empty)
+  rootLink : String          -- how the plugin root is reached and in-root sources are spelled: "none", or
+                             -- "self-link" / "self-real" (the root itself is a symbolic link) or
+                             -- "ancestor-link" / "ancestor-real" (a directory above it is); "-link": an in-root
+                             -- source is spelled through the link like the root, "-real": through the real path.
+                             -- No influence on the model: paths are compared after resolving links.
   ops : List Op
   v : Text
   w : Text
